@@ -75,7 +75,7 @@ func min0(a, b int) int {
 	return b
 }
 
-// Known finding (not repaired): the transaction id is taken (nextTXID) in one critical section and the log is
+// Fixed since: the transaction id was taken (nextTXID) in one critical section and the log is
 // chained in another, so with writers on disjoint accounts the transaction ids need not increase in log order.
 func TestFindingTxIDsNotInLogOrder(t *testing.T) {
 	for round := 0; round < 300; round++ {
